@@ -93,11 +93,10 @@ INFO = {
         "rule": "all canonical integer polynomials with <= 3 coefficients in [-1,1] (thorough: [-2,2]) for every unary op and every ordered pair for every binary op; then seeded random polynomials up to degree 20 with coefficients up to 2^128 (integers) and 30-bit fractions (rationals), with dividend/divisor pairs that are arbitrary, exact multiples, multiples with one coefficient off by one, and monic divisors; ring-law flags evaluated on the implementation. Non-trivial: some operand has degree >= 1 and no operand is the zero polynomial; distinct = distinct (op,args).",
         "rulefn": _c09_rule,
         "trusted": ["Polynomial<BigInt> / Polynomial<BigRational> identified with List Int / List Rat (low degree first)"],
-        "gaps": ["div_exact completeness (None only when b does not divide a): certified on every explored case by an independent rational long division",
-                 "cont_pp: c*pp = a, gcd(pp) = 1, lc(pp) > 0 certified on every explored case (theorem outstanding)"],
+        "gaps": [],
         "assumptions": [],
-        "level_text": "Refinement theorems (for every commutative ring R, in particular Int and Rat): the list model of Add/Sub/Neg/Mul/of/differential computes the operations of Mathlib's R[X] on canonical lists, so the ring laws, canonicity, evaluation homomorphism and product rule hold for all inputs; division contracts (pseudo, monic, rational) proved for all inputs including exactness of every inner truncated division. Model tied to polynomial.rs by differential testing; every implementation output checked by coefficient-formula oracles.",
-        "level_note": "Trusted: Lean kernel + 3 standard axioms; Mathlib Polynomial; BigInt/BigRational arithmetic identified with Int/Rat; correspondence generator coverage. Partial: div_exact completeness and cont_pp are certified per explored case, not proved.",
+        "level_text": "Refinement theorems (for every commutative ring R, in particular Int and Rat): the list model of Add/Sub/Neg/Mul/of/differential computes the operations of Mathlib's R[X] on canonical lists, so the ring laws, canonicity, evaluation homomorphism and product rule hold for all inputs; division contracts (pseudo, monic, rational, exact division as an iff, content/primitive part) proved for all inputs including exactness of every inner truncated division. Model tied to polynomial.rs by differential testing; every implementation output checked by coefficient-formula oracles.",
+        "level_note": "Trusted: Lean kernel + 3 standard axioms; Mathlib Polynomial; BigInt/BigRational arithmetic identified with Int/Rat; correspondence generator coverage.",
     },
     "C19": {
         "rule": "exhaustive boxes (inverse: |a|,m <= box; perfect power: all n < bound; Kronecker: full rows b in [-B,B] for every a in [-B,B]; sieve: every bound <= B) followed by random large operands from the seeded generator; a case is non-trivial when its operands are not units/zero (inv: |a|>1, m>2; pp: n>=4; kron: |a|,|b|>1; primes: bound>=2); distinct = distinct (op,args)",
